@@ -4,8 +4,9 @@ spec -> code:  PrintRead.tla enumerates the value universe (all strings of <= 2 
 escape-relevant character classes, named numeric atoms, names, collections, Python collections, metadata
 wrappers) times the print configurations that can matter, and TLC checks on the specified printing scheme
 that Read(Print(v)) = <<v>> and that printing is idempotent (negative jobs: the \\xNN printer and the greedy
-\\uXXXX reader are rejected).  Every emitted (value, configuration) is concretised (two representatives per
-class), the real Vars are bound, and the value goes through the real pr-str, the real read-string and
+\\uXXXX reader are rejected; a second scheme, greedy reader + printer escaping a hex digit after \\u, is
+accepted).  Every emitted (value, configuration) is concretised (two representatives per class), the real
+Vars are bound, and the value goes through the real pr-str, the real read-string and
 basilisp.lang.reader.read_str.  Compared: exactly one form; equal by the real `=` AND structurally (type,
 order of sequential types, float bit patterns, NaN as NaN, Decimal digits); metadata under *print-meta*;
 printing the re-read value gives the same text; printing twice gives the same text.
@@ -16,6 +17,7 @@ import decimal
 import fractions
 import json
 import math
+import os
 import random
 import re
 import struct
@@ -44,14 +46,16 @@ RATIOS = {"1/3": fractions.Fraction(1, 3), "-7/2": fractions.Fraction(-7, 2),
           "huge/3": fractions.Fraction(10 ** 30 + 1, 3)}
 DECS = {"1.5M": "1.5", "1M": "1", "-0.0M": "-0.0", "1E+3M": "1E+3", "1E-7M": "1E-7",
         "hugeM": "123456789012345678901234567890.123456789"}
-IMAGS = {"2J": 2j, "-2J": -2j, "1.5J": 1.5j, "-0.5J": -0.5j}
-REGEXES = {"re-plain": "a+b", "re-backslash": "\\d+\\.x", "re-dq": 'a"b', "re-nonascii": "\xe9+", "re-newline": "a\nb"}
+IMAGS = {"2J": 2j, "-2J": -2j, "1.5J": 1.5j, "-0.5J": -0.5j}      # -2j = (- 2J) has the real part -0.0
+REGEXES = {"re-plain": "a+b", "re-backslash": "\\d+\\.x", "re-dq": 'a"b', "re-nonascii": "\xe9+",
+           "re-newline": "a\nb"}
 BYTES = {"b-empty": b"", "b-ascii": b"abc 1", "b-high": b"\x00\xff\x80\n", "b-dq": b'a"b', "b-sq": b"a'b",
          "b-both": b"a'\"b", "b-bs": b"a\\b"}
 UTC = datetime.timezone.utc
 INSTS = {"inst-utc": datetime.datetime(2020, 1, 2, 3, 4, 5, tzinfo=UTC),
          "inst-naive-micro": datetime.datetime(2021, 12, 31, 23, 59, 59, 123456),
-         "inst-offset": datetime.datetime(1999, 6, 7, 8, 9, 10, tzinfo=datetime.timezone(datetime.timedelta(hours=5, minutes=30)))}
+         "inst-offset": datetime.datetime(1999, 6, 7, 8, 9, 10,
+                                          tzinfo=datetime.timezone(datetime.timedelta(hours=5, minutes=30)))}
 UUID1 = uuid.UUID("6f3e1a2c-1b2d-4c3e-8f9a-0b1c2d3e4f5a")
 
 _R = {}
@@ -137,8 +141,9 @@ def _bits(x):
 
 
 def _user_meta(o):
+    """the metadata of o without the reader's location keys"""
     m = getattr(o, "meta", None)
-    if m is None or callable(m):
+    if not isinstance(m, _R["lmap"].PersistentMap):
         return {}
     return {k: v for k, v in m.items() if getattr(k, "ns", None) != "basilisp.lang.reader"}
 
@@ -150,13 +155,15 @@ def same(a, b, meta):
         return "type:%s->%s" % (type(a).__name__, type(b).__name__)
     if isinstance(a, float):
         return None if _bits(a) == _bits(b) else "float-bits:%r->%r" % (a, b)
-    if isinstance(a, complex):
-        return None if (_bits(a.real), _bits(a.imag)) == (_bits(b.real), _bits(b.imag)) else "complex-bits"
+    if isinstance(a, complex):      # an imaginary literal cannot express the sign of a zero real part
+        return None if a.real == b.real and _bits(a.imag) == _bits(b.imag) else "complex-bits"
     if isinstance(a, decimal.Decimal):
         return None if a.as_tuple() == b.as_tuple() else "decimal-digits:%s->%s" % (a, b)
     if isinstance(a, re.Pattern):
-        return None if (a.pattern, a.flags) == (b.pattern, b.flags) else "regex-pattern:%r->%r" % (a.pattern, b.pattern)
-    if isinstance(a, (R["llist"].PersistentList, R["vec"].PersistentVector, R["lqueue"].PersistentQueue, list, tuple)):
+        return None if (a.pattern, a.flags) == (b.pattern, b.flags) else \
+            "regex-pattern:%r->%r" % (a.pattern, b.pattern)
+    if isinstance(a, (R["llist"].PersistentList, R["vec"].PersistentVector, R["lqueue"].PersistentQueue,
+                      list, tuple)):
         la, lb = list(a), list(b)
         if len(la) != len(lb):
             return "length"
@@ -188,6 +195,35 @@ def same(a, b, meta):
             if not any(same(k, k2, meta) is None and same(v, v2, meta) is None for k2, v2 in mb.items()):
                 return "meta:%s->%s" % (ma, mb)
     return None
+
+
+def strip_loc(o):
+    """a copy of o without the reader's line/col metadata"""
+    R = _R
+    if isinstance(o, (str, bytes)) or o is None:
+        return o
+    if isinstance(o, R["sym"].Symbol):
+        m = _user_meta(o)
+        return o.with_meta(R["lmap"].map(m) if m else None)
+    if isinstance(o, (R["llist"].PersistentList, R["vec"].PersistentVector, R["lset"].PersistentSet,
+                      R["lqueue"].PersistentQueue)):
+        ctor = {R["llist"].PersistentList: R["llist"].list, R["vec"].PersistentVector: R["vec"].vector,
+                R["lset"].PersistentSet: R["lset"].set, R["lqueue"].PersistentQueue: R["lqueue"].queue}[type(o)]
+        m = {strip_loc(k): strip_loc(v) for k, v in _user_meta(o).items()}
+        return ctor([strip_loc(x) for x in o]).with_meta(R["lmap"].map(m) if m else None)
+    if isinstance(o, R["lmap"].PersistentMap):
+        m = {strip_loc(k): strip_loc(v) for k, v in _user_meta(o).items()}
+        return R["lmap"].map({strip_loc(k): strip_loc(v) for k, v in o.items()}).with_meta(
+            R["lmap"].map(m) if m else None)
+    if isinstance(o, list):
+        return [strip_loc(x) for x in o]
+    if isinstance(o, tuple):
+        return tuple(strip_loc(x) for x in o)
+    if isinstance(o, set):
+        return {strip_loc(x) for x in o}
+    if isinstance(o, dict):
+        return {strip_loc(k): strip_loc(v) for k, v in o.items()}
+    return o
 
 
 # ------------------------------------------------------------------------------------------------
@@ -242,35 +278,6 @@ def round_trip(val, cfg):
         rt.pop_thread_bindings()
 
 
-def strip_loc(o):
-    """a copy of o without the reader's line/col metadata"""
-    R = _R
-    if isinstance(o, (str, bytes)) or o is None:
-        return o
-    if isinstance(o, R["sym"].Symbol):
-        m = _user_meta(o)
-        return o.with_meta(R["lmap"].map(m) if m else None)
-    if isinstance(o, (R["llist"].PersistentList, R["vec"].PersistentVector, R["lset"].PersistentSet,
-                      R["lqueue"].PersistentQueue)):
-        ctor = {R["llist"].PersistentList: R["llist"].list, R["vec"].PersistentVector: R["vec"].vector,
-                R["lset"].PersistentSet: R["lset"].set, R["lqueue"].PersistentQueue: R["lqueue"].queue}[type(o)]
-        m = {strip_loc(k): strip_loc(v) for k, v in _user_meta(o).items()}
-        return ctor([strip_loc(x) for x in o]).with_meta(R["lmap"].map(m) if m else None)
-    if isinstance(o, R["lmap"].PersistentMap):
-        m = {strip_loc(k): strip_loc(v) for k, v in _user_meta(o).items()}
-        return R["lmap"].map({strip_loc(k): strip_loc(v) for k, v in o.items()}).with_meta(
-            R["lmap"].map(m) if m else None)
-    if isinstance(o, list):
-        return [strip_loc(x) for x in o]
-    if isinstance(o, tuple):
-        return tuple(strip_loc(x) for x in o)
-    if isinstance(o, set):
-        return {strip_loc(x) for x in o}
-    if isinstance(o, dict):
-        return {strip_loc(k): strip_loc(v) for k, v in o.items()}
-    return o
-
-
 def _has_nan(v):
     if isinstance(v, float):
         return v != v
@@ -291,25 +298,42 @@ def _unordered(v):
         if len(v) >= 2:
             return True
         items = list(v.items()) if hasattr(v, "items") else [(x,) for x in v]
-        return any(_unordered(x) for tup in items for x in tup)
-    if isinstance(v, (R["llist"].PersistentList, R["vec"].PersistentVector, R["lqueue"].PersistentQueue, list, tuple)):
-        return any(_unordered(x) for x in v) or (bool(_user_meta(v)) and len(_user_meta(v)) >= 2)
+        return any(_unordered(x) for tup in items for x in tup) or len(_user_meta(v)) >= 2
+    if isinstance(v, (R["llist"].PersistentList, R["vec"].PersistentVector, R["lqueue"].PersistentQueue,
+                      list, tuple)):
+        return any(_unordered(x) for x in v) or len(_user_meta(v)) >= 2
     return len(_user_meta(v)) >= 2
 
 
 # ------------------------------------------------------------------------------------------------
 # signatures
 # ------------------------------------------------------------------------------------------------
+X_MSG = "Unknown escape sequence: \\x"
+G_MSG = "Unicode escape sequence must be exactly"
+
+
+def string_devs(x_fires, g_fires, oc, detail, text):
+    """the named deviations of the as-built model that explain an unreadable string: a deviation counts
+    only if it fires on this string in the model AND the real text / error shows exactly that mechanism"""
+    if not oc.startswith("unreadable"):
+        return []
+    devs = []
+    if x_fires and text and "\\x" in text and X_MSG in (detail or ""):
+        devs.append("XEscape")
+    if g_fires and (G_MSG in (detail or "") or "chr() arg not in range" in (detail or "")):
+        devs.append("GreedyHex")        # 4 hex-digit characters after \uXXXX make an 8-digit escape
+    return devs
+
+
 def leaf_sig(v, outcome, detail, text, beh):
     """family signature for a failing value: names the input class and the wrong outcome"""
     ty = v["ty"]
     oc = outcome.split(":")[0]
     if ty == "str":
-        devs = [d for d, f in (("XEscape", "x"), ("GreedyHex", "g")) if beh.get(f) not in (None, "same")]
-        want = beh.get("xg")
-        if devs and ((want == "unreadable") == (oc == "unreadable")):
-            return "dev:" + "+".join(devs)
-        return None
+        x = beh.get("x", "?") != "same"
+        g = beh.get("g", "?") != "same" or beh.get("xg", "?") != "same"
+        devs = string_devs(x, g, outcome, detail, text)
+        return "dev:" + "+".join(devs) if devs else None
     if ty == "float":
         shape = "exponent-notation" if text and "e" in text else "plain"
         if oc == "differs" and detail.startswith("type:float->int"):
@@ -340,8 +364,7 @@ def find_leaf(v):
 
 
 # ------------------------------------------------------------------------------------------------
-def _work(args):
-    behs = args
+def _work(behs):
     _init()
     out = []
     n = 0
@@ -361,9 +384,7 @@ def _work(args):
                     key = (json.dumps(lf, sort_keys=True), var, json.dumps(b["cfg"], sort_keys=True))
                     if key not in leaf_cache:
                         lo, ld, lt = round_trip(conc(lf, var), b["cfg"])
-                        leaf_cache[key] = None if lo == "same" else leaf_sig(lf, lo, ld, lt, {})
-                        if lo != "same" and leaf_cache[key] is None:
-                            leaf_cache[key] = "leaf"
+                        leaf_cache[key] = None if lo == "same" else (leaf_sig(lf, lo, ld, lt, {}) or "leaf")
                     if leaf_cache[key] and leaf_cache[key] != "leaf":
                         sig = leaf_cache[key]
                         break
@@ -372,30 +393,57 @@ def _work(args):
     return n, out
 
 
-def _pool(n=16):
+class Bg:
+    """a TLC job running in a background thread"""
+
+    def __init__(self, module, cfg, **kw):
+        import threading
+        import time
+        self.r = self.err = None
+
+        def go():
+            try:
+                kw["workers"] = min(kw.get("workers", 16), TLCW)
+                self.r = tlc.run(module, cfg, **kw)
+            except BaseException as e:  # noqa
+                self.err = e
+        self.t = threading.Thread(target=go, daemon=True)
+        self.t.start()
+        time.sleep(0.3)          # tlc.run numbers its scratch directories with an unlocked counter
+
+    def result(self):
+        self.t.join()
+        if self.err is not None:
+            raise self.err
+        return self.r
+
+
+POOL = int(os.environ.get("VERIF_POOL") or 16)            # process pool size (shared machine: VERIF_POOL=4)
+TLCW = int(os.environ.get("VERIF_TLC_WORKERS") or 16)     # cap on TLC worker threads per job
+
+
+def _pool(n=None):
     import multiprocessing
-    return multiprocessing.get_context("fork").Pool(n)
+    return multiprocessing.get_context("fork").Pool(n or POOL)
 
 
 def float_probe(seed, n):
-    """random doubles from boundary exponents -> list of failures (repr, outcome, detail)"""
+    """random doubles from boundary exponents -> failures (repr, outcome, detail, text)"""
     _init()
     rnd = random.Random(seed)
     exps = [0, 1, 2, 3, 1020, 1021, 1022, 1023, 1024, 1025, 1075, 1076, 1077, 1074, 1006, 1009, 1010, 2044,
-            2045, 2046, 971, 972, 970, 1, 52, 53, 54, 897, 874, 873, 1150, 1151]
+            2045, 2046, 971, 972, 970, 52, 53, 54, 897, 874, 873, 1150, 1151]
     mants = [0, 1, (1 << 52) - 1, 1 << 51, (1 << 51) + 1]
     bad = []
-    done = 0
     for _ in range(n):
         e = rnd.choice(exps) if rnd.random() < 0.8 else rnd.randrange(0, 2047)
         m = rnd.choice(mants) if rnd.random() < 0.3 else rnd.getrandbits(52)
         s = rnd.getrandbits(1)
         x = struct.unpack(">d", struct.pack(">Q", (s << 63) | (e << 52) | m))[0]
         oc, detail, text = round_trip(x, {})
-        done += 1
         if oc != "same":
             bad.append((repr(x), oc, detail, text))
-    return done, bad
+    return n, bad
 
 
 def _float_work(args):
@@ -407,8 +455,8 @@ def _string_work(args):
     _init()
     rnd = random.Random(seed)
     pools = [list(r.values()) for r in REPS]
-    extra = [" ", "\u0085", "﻿", "퟿", "", "￿", "\U00010000", "\U0010ffff", "­", "e", "u", "x",
-             "U", "0", "9", "\\u", "\\x41", "{", "#"]
+    extra = [" ", "\u0085", "﻿", "퟿", "", "￿", "\U00010000", "\U0010ffff", "­",
+             "e", "u", "x", "U", "0", "9", "\\u", "\\x41", "{", "#"]
     bad = []
     for _ in range(n):
         k = rnd.randrange(1, 9)
@@ -422,9 +470,9 @@ def _string_work(args):
 
 
 def classify_string(s):
-    """which deviation classes a concrete string touches (for the signature of random strings)"""
+    """which deviations of the as-built model fire on a concrete string"""
     x = any((ord(c) < 0x20 and c not in "\n\t\r") or 0x7f <= ord(c) <= 0xff for c in s)
-    g = any(0x100 <= ord(s[i]) and s[i + 1] in "0123456789abcdefABCDEF" for i in range(len(s) - 1))
+    g = any((ord(s[i]) >= 0x100 or x) and s[i + 1] in "0123456789abcdefABCDEF" for i in range(len(s) - 1))
     return x, g
 
 
@@ -437,13 +485,22 @@ def run(chk):
                 "exponent / suffix notation")
     pool = _pool()
     try:
-        for name, must in (("PrintRead_NegX.cfg", "RoundTrip"), ("PrintRead_NegG.cfg", "RoundTrip")):
-            rn = tlc.run("PrintRead", name, timeout=3000, workers=4, heap="2g")
-            chk.add_tlc(name[:-4], rn)
-            if must not in rn.violated:
-                chk.machinery("%s: the deviation was NOT rejected by the design check (vacuous)" % name)
-        r = tlc.run("PrintRead", "PrintRead_MC.cfg" if quick else "PrintRead_MCt.cfg", timeout=3000, heap="6g")
+        # the small design-check jobs run beside the generation job (threads start after the pool exists)
+        side = [(name, Bg("PrintRead", name, timeout=3000, workers=2, heap="1g"))
+                for name in ("PrintRead_NegX.cfg", "PrintRead_NegG.cfg")]
+        side.append(("PrintRead_MCB.cfg", Bg("PrintRead", "PrintRead_MCB.cfg", timeout=3000, workers=4, heap="2g")))
+        r = tlc.run("PrintRead", "PrintRead_MC.cfg" if quick else "PrintRead_MCt.cfg", timeout=3000, heap="6g",
+                    workers=TLCW)
         chk.add_tlc("PrintRead_MC", r)
+        for name, bg in side:
+            rs = bg.result()
+            chk.add_tlc(name[:-4], rs)
+            if name == "PrintRead_MCB.cfg":
+                if rs.violated or not rs.ok:
+                    chk.machinery("PrintRead_MCB: the scheme 'greedy reader + printer escapes a hex digit after "
+                                  "\\u' does not round-trip: %s" % rs.violated)
+            elif "RoundTrip" not in rs.violated:
+                chk.machinery("%s: the deviation was NOT rejected by the design check (vacuous)" % name)
         if r.violated or not r.ok:
             chk.machinery("PrintRead_MC: the specified printing scheme does not round-trip: %s\n%s"
                           % (r.violated, r.error_trace()[:1500]))
@@ -486,10 +543,10 @@ def run(chk):
             chk.count(n, traces=n)
             for s, oc, detail, text in bad:
                 x, g = classify_string(s)
-                devs = [d for d, f in (("XEscape", x), ("GreedyHex", g)) if f]
-                sig = "dev:" + "+".join(devs) if devs and oc.startswith("unreadable") else None
+                devs = string_devs(x, g, oc, detail, text)
                 chk.discrepancy("PrintRead!RoundTrip(random string)", {"kind": "string", "s": s},
-                                "the same string", "%s (%s) text=%r" % (oc, detail, text), sig=sig,
+                                "the same string", "%s (%s) text=%r" % (oc, detail, text),
+                                sig="dev:" + "+".join(devs) if devs else None,
                                 module="PrintRead", direction="spec->code")
         chk.extra["random_floats"] = nf
         chk.extra["random_strings"] = ns
